@@ -263,30 +263,38 @@ namespace cs
     };
     struct Tracker
     {
+        // (default constructible: a tracker somebody else made up instead of the user's one reports to nobody,
+        //  which the tracker oracle then sees as missing events)
         TrackLog* log = nullptr;
         void      on_node_allocation(void* p, std::size_t size, std::size_t align) noexcept
         {
-            log->ev.push_back({'n', p, 1, size, align});
+            if (log)
+                log->ev.push_back({'n', p, 1, size, align});
         }
         void on_array_allocation(void* p, std::size_t count, std::size_t size, std::size_t align) noexcept
         {
-            log->ev.push_back({'a', p, count, size, align});
+            if (log)
+                log->ev.push_back({'a', p, count, size, align});
         }
         void on_node_deallocation(void* p, std::size_t size, std::size_t align) noexcept
         {
-            log->ev.push_back({'N', p, 1, size, align});
+            if (log)
+                log->ev.push_back({'N', p, 1, size, align});
         }
         void on_array_deallocation(void* p, std::size_t count, std::size_t size, std::size_t align) noexcept
         {
-            log->ev.push_back({'A', p, count, size, align});
+            if (log)
+                log->ev.push_back({'A', p, count, size, align});
         }
         void on_allocator_growth(void* p, std::size_t size) noexcept
         {
-            log->ev.push_back({'g', p, 1, size, 0});
+            if (log)
+                log->ev.push_back({'g', p, 1, size, 0});
         }
         void on_allocator_shrinking(void* p, std::size_t size) noexcept
         {
-            log->ev.push_back({'s', p, 1, size, 0});
+            if (log)
+                log->ev.push_back({'s', p, 1, size, 0});
         }
     };
 } // namespace cs
